@@ -3,12 +3,15 @@
 package vault
 
 import (
+	"context"
 	"encoding/hex"
+	"errors"
 	"fmt"
 	"strings"
 	"testing"
 
 	"github.com/openbao/openbao/sdk/v2/logical"
+	"github.com/openbao/openbao/v2/internal/helper/namespace"
 
 	"github.com/openbao/openbao/sdk/v2/helper/verifx"
 	"pgregory.net/rapid"
@@ -40,21 +43,53 @@ func TestVerif_C20_UnsealThreshold(t *testing.T) {
 			cur = keys
 			rekeyed = true
 		}
-		if err := tc.seal(); err != nil {
+		var hist []string
+		restarted := rapid.Bool().Draw(rt, "restartInsteadOfSeal")
+		if restarted {
+			// a new process on the same storage: nothing of the seal's configuration is in memory yet
+			tc.keys = cur
+			tc.shutdown()
+			ntc, err := tc.restartSealed()
+			if err != nil {
+				t.Fatalf("harness: restart: %v", err)
+			}
+			tc = ntc
+			defer ntc.shutdown()
+			hist = append(hist, "restart (sealed)")
+		} else if err := tc.seal(); err != nil {
 			t.Fatalf("harness: seal: %v", err)
 		}
-		supplied := map[int]bool{} // distinct valid current shares since the last reset
-		var hist []string
+		supplied := map[int]bool{} // distinct valid current shares since the last reset that are certainly part of the progress
+		maybe := map[int]bool{}    // valid current shares of requests that failed on an injected storage fault: recorded or not
 		nontrivial := false
+		faulted := 0
 		steps := 3 + fairIndex(rt, "steps", 10)
 		for i := 0; i < steps && tc.c.Sealed(); i++ {
-			kind := []string{"valid", "valid", "valid", "duplicate", "old", "flipped", "truncated", "reset"}[fairIndex(rt, "kind", 8)]
+			kind := []string{"valid", "valid", "valid", "duplicate", "old", "flipped", "truncated", "reset", "faulted"}[fairIndex(rt, "kind", 9)]
+			if i == 0 && restarted && rapid.Bool().Draw(rt, "firstShareMeetsOutage") {
+				kind = "faulted"
+			}
 			var key []byte
 			idx := -1
+			fired := 0
 			switch kind {
-			case "valid":
+			case "valid", "faulted":
 				idx = fairIndex(rt, "share", n)
 				key = TestKeyCopy(cur[idx])
+				if kind == "faulted" {
+					// the storage fails the k-th read made while this share is handled, or that one and all later ones
+					k, outage, reads := fairIndex(rt, "failRead", 6), rapid.Bool().Draw(rt, "outage"), 0
+					tc.rec.SetFault(func(o *verifx.Op) error {
+						if o.Kind == "get" || o.Kind == "list" {
+							reads++
+							if reads-1 == k || outage && reads-1 > k {
+								fired++
+								return errors.New("verif: injected read fault")
+							}
+						}
+						return nil
+					})
+				}
 			case "duplicate":
 				if len(supplied) == 0 {
 					continue
@@ -78,26 +113,63 @@ func TestVerif_C20_UnsealThreshold(t *testing.T) {
 				key = TestKeyCopy(cur[0])[:8]
 			case "reset":
 				tc.c.ResetUnsealProcess()
-				supplied = map[int]bool{}
+				supplied, maybe = map[int]bool{}, map[int]bool{}
 				hist = append(hist, "reset")
 				continue
 			}
 			before := len(supplied)
 			unsealed, uerr := tc.c.Unseal(key)
-			hist = append(hist, fmt.Sprintf("%s(share %d) -> unsealed=%v err=%v", kind, idx, unsealed, uerr != nil))
+			tc.rec.SetFault(nil)
+			hist = append(hist, fmt.Sprintf("%s(share %d) -> unsealed=%v err=%v faults=%d", kind, idx, unsealed, uerr != nil, fired))
 			if kind != "valid" || supplied[idx] {
 				if before < th {
 					nontrivial = true
 				}
 			}
-			detail := map[string]any{"n": n, "t": th, "rekeyed_before": rekeyed, "history": hist}
+			detail := map[string]any{"n": n, "t": th, "rekeyed_before": rekeyed, "restarted": restarted, "history": hist}
+			if kind == "faulted" {
+				if fired == 0 {
+					kind = "valid" // the request needed no read: an ordinary share
+				} else {
+					faulted++
+					upper := map[int]bool{idx: true}
+					for j := range supplied {
+						upper[j] = true
+					}
+					for j := range maybe {
+						upper[j] = true
+					}
+					if unsealed && len(upper) < th {
+						rec.Violation(rt, "unsealed-below-threshold", detail, "the core unsealed after at most %d distinct valid shares (threshold %d): %v", len(upper), th, hist)
+					}
+					if uerr != nil {
+						// the share may have been recorded before the failing read, and a failed combination drops
+						// the progress: from here on only the upper bound is known
+						maybe, supplied = upper, map[int]bool{}
+					} else {
+						supplied[idx] = true
+					}
+					continue
+				}
+			}
 			switch kind {
 			case "valid", "duplicate":
+				if uerr != nil && !unsealed {
+					// the progress holds valid shares of the current generation only (the harness resets it after every
+					// invalid one) and the storage answered: nothing entitles the core to refuse this share
+					rec.Violation(rt, "valid-share-refused", detail, "a valid share was refused (%v) although only valid shares of the current generation had been supplied since the last reset (%d certain, %d after failed requests): %v", uerr, len(supplied), len(maybe), hist)
+				}
 				if uerr == nil || unsealed {
 					supplied[idx] = true
 				}
-				if unsealed && len(supplied) < th {
-					rec.Violation(rt, "unsealed-below-threshold", detail, "the core unsealed after only %d distinct valid shares (threshold %d): %v", len(supplied), th, hist)
+				upper := len(supplied)
+				for j := range maybe {
+					if !supplied[j] {
+						upper++
+					}
+				}
+				if unsealed && upper < th {
+					rec.Violation(rt, "unsealed-below-threshold", detail, "the core unsealed after only %d distinct valid shares (threshold %d): %v", upper, th, hist)
 				}
 				if !unsealed && uerr == nil && len(supplied) >= th {
 					rec.Violation(rt, "not-unsealed-at-threshold", detail, "%d distinct valid shares supplied (threshold %d) but the core is still sealed: %v", len(supplied), th, hist)
@@ -115,8 +187,15 @@ func TestVerif_C20_UnsealThreshold(t *testing.T) {
 				// the failed combination already reset the progress. The harness resets the progress explicitly so
 				// that the model starts clean in all three cases.
 				tc.c.ResetUnsealProcess()
-				supplied = map[int]bool{}
+				supplied, maybe = map[int]bool{}, map[int]bool{}
 				hist = append(hist, "reset(after invalid share)")
+			}
+		}
+		if faulted > 0 {
+			nontrivial = true
+			rec.Class("share-met-a-storage-outage", 1)
+			if restarted {
+				rec.Class("share-met-a-storage-outage:after-restart", 1)
 			}
 		}
 		rec.Case(fmt.Sprintf("n=%d,t=%d", n, th), nontrivial, verifx.Digest(n, th, rekeyed, hist), func() any {
@@ -461,5 +540,186 @@ func TestVerif_C20_ShareGatedHistory(t *testing.T) {
 		}
 		nontrivial = rotatedAfterReject
 		rec.Case(fmt.Sprintf("n=%d,t=%d", n, th), nontrivial, verifx.Digest(n, th, hist), func() any { return map[string]any{"n": n, "t": th, "history": hist} })
+	})
+}
+
+// restartSealed: a new core on the storage of tc (which must have been shut down), left sealed.
+func (tc *tcore) restartSealed() (*tcore, error) {
+	if tc.abandoned {
+		panic(errCoreWedged)
+	}
+	o := tc.opts
+	o.phys, o.noInit, o.keys = tc.phys, true, tc.keys
+	ct := &caseT{T: tc.t}
+	n := &tcore{t: tc.t, ct: ct, phys: o.phys, rec: verifx.RecOf(o.phys), opts: o, ctx: tc.ctx, keys: tc.keys, root: tc.root}
+	c, err := NewCore(newCoreConfig(ct, &o))
+	if err != nil {
+		ct.done()
+		return nil, fmt.Errorf("NewCore: %w", err)
+	}
+	n.c = c
+	return n, nil
+}
+
+// TestVerif_C20_NamespaceUnsealThreshold: the same threshold rule for the Shamir seal of a sealable namespace, whose
+// shares arrive one request at a time with the request's context - requests that are abandoned by their client or
+// meet a storage fault must not change what the following shares add up to.
+func TestVerif_C20_NamespaceUnsealThreshold(t *testing.T) {
+	rec := verifx.NewRecorder("C20", "namespace-unseal-threshold", "a namespace with a Shamir seal of its own (n 2..5 shares, threshold t 2..n) is created on a core, the core is restarted on its storage (or only the namespace is left sealed as created) and the namespace seal is fed a generated sequence of shares: valid (possibly repeated), flipped, truncated, progress resets, and valid shares whose request was abandoned by the client (context cancelled) or met a failing k-th storage read; model = lower and upper bound of the distinct valid shares in the progress; oracle: never unsealed below t distinct valid shares, unsealed at t, and a valid share is never refused while the progress holds valid shares only and the storage answers; non-trivial = a share request failed for an outage or a cancelled context before the threshold was reached")
+	defer rec.Flush()
+	rapid.Check(t, func(rt *rapid.T) {
+		defer recoverWedged(rec)
+		n := 2 + fairIndex(rt, "n", 4)
+		th := 2 + fairIndex(rt, "t", n-1)
+		tc, err := bootCore(t, coreOpts{transactional: rapid.Bool().Draw(rt, "transactionalStorage"), cacheOff: true})
+		if err != nil {
+			t.Fatalf("harness: %v", err)
+		}
+		defer func() { tc.shutdown() }()
+		r := tc.req(logical.UpdateOperation, "sys/namespaces/vault", tc.root, map[string]any{"seal": c10nsSealJSON(n, th)})
+		resp := tc.mustOK(r, "create sealable namespace")
+		cur, err := c10nsDecodeKeys(resp.Data["key_shares"])
+		if err != nil || len(cur) != n {
+			t.Fatalf("harness: key shares: %v (%d)", err, len(cur))
+		}
+		var hist []string
+		restarted := fairIndex(rt, "restart", 3) > 0
+		if restarted {
+			tc.shutdown()
+			ntc, err := tc.restartOn(tc.phys)
+			if err != nil {
+				t.Fatalf("harness: restart: %v", err)
+			}
+			tc = ntc
+			hist = append(hist, "restart of the core")
+		}
+		ns, err := tc.c.namespaceStore.GetNamespaceByPath(tc.ctx, "vault/")
+		if err != nil || ns == nil || ns.Path != "vault/" {
+			t.Fatalf("harness: namespace lookup: %v", err)
+		}
+		if !tc.c.NamespaceSealed(ns) {
+			// created unsealed on this tree: seal it
+			tc.mustOK(tc.req(logical.UpdateOperation, "sys/namespaces/vault/seal", tc.root, nil), "seal namespace")
+		}
+		nsCtx := namespace.ContextWithNamespace(context.Background(), ns)
+		supplied, maybe := map[int]bool{}, map[int]bool{}
+		failedBefore := 0
+		steps := 3 + fairIndex(rt, "steps", 10)
+		for i := 0; i < steps && tc.c.NamespaceSealed(ns); i++ {
+			kind := []string{"valid", "valid", "valid", "duplicate", "flipped", "truncated", "reset", "faulted", "faulted"}[fairIndex(rt, "kind", 9)]
+			if i == 0 && rapid.Bool().Draw(rt, "firstShareFails") {
+				kind = "faulted"
+			}
+			var key []byte
+			idx := -1
+			ctx := nsCtx
+			fired := 0
+			how := ""
+			switch kind {
+			case "valid", "faulted":
+				idx = fairIndex(rt, "share", n)
+				key = TestKeyCopy(cur[idx])
+				if kind == "faulted" {
+					if rapid.Bool().Draw(rt, "clientGone") {
+						c, cancel := context.WithCancel(nsCtx)
+						cancel()
+						ctx, how = c, "context cancelled"
+					} else {
+						k, reads := fairIndex(rt, "failRead", 4), 0
+						how = fmt.Sprintf("read %d fails", k)
+						tc.rec.SetFault(func(o *verifx.Op) error {
+							if o.Kind == "get" || o.Kind == "list" {
+								reads++
+								if reads-1 == k {
+									fired++
+									return errors.New("verif: injected read fault")
+								}
+							}
+							return nil
+						})
+					}
+				}
+			case "duplicate":
+				for j := range cur {
+					if supplied[j] {
+						idx = j
+						break
+					}
+				}
+				if idx < 0 {
+					continue
+				}
+				key = TestKeyCopy(cur[idx])
+			case "flipped":
+				key = TestKeyCopy(cur[fairIndex(rt, "share", n)])
+				key[fairIndex(rt, "pos", len(key)-1)] ^= 0x41
+			case "truncated":
+				key = TestKeyCopy(cur[0])[:8]
+			case "reset":
+				tc.mustOK(tc.req(logical.UpdateOperation, "sys/namespaces/vault/unseal", tc.root, map[string]any{"reset": true}), "reset")
+				supplied, maybe = map[int]bool{}, map[int]bool{}
+				hist = append(hist, "reset")
+				continue
+			}
+			unsealed, uerr := tc.c.sealManager.UnsealNamespace(ctx, ns, key)
+			tc.rec.SetFault(nil)
+			hist = append(hist, fmt.Sprintf("%s(share %d %s) -> unsealed=%v err=%v", kind, idx, how, unsealed, uerr != nil))
+			detail := map[string]any{"n": n, "t": th, "restarted": restarted, "history": hist}
+			upper := map[int]bool{}
+			for j := range supplied {
+				upper[j] = true
+			}
+			for j := range maybe {
+				upper[j] = true
+			}
+			switch kind {
+			case "faulted":
+				upper[idx] = true
+				if unsealed && len(upper) < th {
+					rec.Violation(rt, "unsealed-below-threshold:namespace", detail, "the namespace unsealed after at most %d distinct valid shares (threshold %d): %v", len(upper), th, hist)
+				}
+				if uerr != nil {
+					if len(upper) < th {
+						failedBefore++
+					}
+					maybe, supplied = upper, map[int]bool{}
+				} else {
+					supplied[idx] = true
+				}
+			case "valid", "duplicate":
+				if uerr != nil && !unsealed {
+					rec.Violation(rt, "valid-share-refused:namespace", detail, "a valid share was refused (%v) although only valid shares had been supplied since the last reset (%d certain, %d from failed requests) and the storage answered: %v", uerr, len(supplied), len(maybe), hist)
+					supplied, maybe = map[int]bool{}, map[int]bool{}
+					break
+				}
+				supplied[idx] = true
+				upper[idx] = true
+				if unsealed && len(upper) < th {
+					rec.Violation(rt, "unsealed-below-threshold:namespace", detail, "the namespace unsealed after only %d distinct valid shares (threshold %d): %v", len(upper), th, hist)
+				}
+				if !unsealed && len(supplied) >= th && len(maybe) > 0 {
+					// Shares recorded by requests that failed afterwards stay in the progress; supplying them again is
+					// a no-op ("already supplied") and the threshold is only evaluated when a NEW share arrives, so the
+					// progress can be complete while the namespace stays sealed until a reset or a further share. The
+					// statement demands "only once the threshold has been supplied", not promptness: counted, not judged.
+					rec.Class("observation:progress-complete-but-still-sealed-after-failed-share-requests", 1)
+				} else if !unsealed && len(supplied) >= th {
+					rec.Violation(rt, "not-unsealed-at-threshold:namespace", detail, "%d distinct valid shares supplied (threshold %d) but the namespace is still sealed: %v", len(supplied), th, hist)
+				}
+			default:
+				if unsealed {
+					rec.Violation(rt, "unsealed-with-invalid-share:namespace", detail, "the namespace unsealed right after an invalid share (%s): %v", kind, hist)
+				}
+				tc.mustOK(tc.req(logical.UpdateOperation, "sys/namespaces/vault/unseal", tc.root, map[string]any{"reset": true}), "reset")
+				supplied, maybe = map[int]bool{}, map[int]bool{}
+				hist = append(hist, "reset(after invalid share)")
+			}
+		}
+		if failedBefore > 0 {
+			rec.Class("namespace:share-request-failed-before-threshold", 1)
+		}
+		rec.Case(fmt.Sprintf("ns:n=%d,t=%d", n, th), failedBefore > 0, verifx.Digest("ns", n, th, restarted, hist), func() any {
+			return map[string]any{"n": n, "t": th, "restarted": restarted, "history": hist, "unsealed_at_end": !tc.c.NamespaceSealed(ns)}
+		})
 	})
 }
